@@ -14,7 +14,10 @@ rule = ("scripts = 'dec new <codec> <align>:<hex> ...' (guarded segments at the 
         "'dec state' head room, then 'dec run' repeated (resume after every return code), 'dec append'/'dec seg' (more input), "
         "'dec peek', 'dec size'.  Stream 1 (exhaustive) = every byte string over {00,01,02,1f,20,de,df,e0,e1,fe,ff} up to "
         "length 4 x 4 COBS decoders in one segment, and up to length 3 (quick) / 4 (thorough) additionally in every "
-        "2-segmentation as two segments and as 2-step arrival; plus a seeded sample of longer strings (all three forms); stream 2 = valid frames of structured "
+        "2-segmentation as two segments and as 2-step arrival; plus a seeded sample of longer strings (all three forms); "
+        "stream 1b = every 3-segmentation (empty segments included) of every string of length 2..3 (thorough: plus a third of the 3-segmentations of length 4) "
+        "and of valid multi-block frames (single and two frames back to back) for all 4 decoders, a third of them with a "
+        "fourth, empty segment inserted, and of command text with head room; stream 2 = valid frames of structured "
         "messages (block-boundary lengths) mutated (byte flip, zero inserted, truncation, doubled delimiter) under random "
         "segmentations/alignments/head room, command text included; stream 3 = random bytes with peek/size calls in between.  "
         "Non-trivial = a script in which a call returned an error, or a message was delivered after an earlier call had "
@@ -170,6 +173,48 @@ def scripts(tier, seed, scale=1):
             for cut in range(1, len(x)):
                 out.append(("ex2:%s:%s:%d" % (codec, gen.hexs(x), cut), one_string(codec, x, "two", cut, a, (a * 7 + cut) % 16)))
                 out.append(("exa:%s:%s:%d" % (codec, gen.hexs(x), cut), one_string(codec, x, "arrive", cut, a)))
+    # ---- stream 1b: three and more segments (empty ones included), systematically
+    def seg3(codec, x, i, j, a, empty_at=None):
+        parts = [x[:i], x[i:j], x[j:]]
+        if empty_at is not None:
+            parts.insert(empty_at, [])
+        segs = " ".join(seg((a + 5 * k) % 16, p) for k, p in enumerate(parts))
+        return ["dec new %s %s" % (codec, segs)] + ["dec run"] * (2 + x.count(0))
+    top3 = 3 if tier == "quick" else 4
+    s3 = [x for x in strings(top3) if len(x) >= 2]
+    # valid multi-block frames: a boundary in front of every code byte and in front of the delimiter occurs
+    base_msgs = [[0x11, 0x22, 0, 0x33, 0x44, 0, 0x55], [0x11, 0, 0, 0x22], [0, 0x11], [0x11, 0x22, 0x33, 0xff],
+                 [0x11, 0, 0, 0, 0x22, 0], [0xe0, 0, 0xdf], [7] * 30 + [0, 0, 9], [1, 2, 3, 0, 0, 4, 5, 6, 0, 0, 7]]
+    for codec in DECODERS:
+        for k, x in enumerate(s3):
+            n = len(x)
+            for i in range(0, n + 1):
+                for j in range(i, n + 1):
+                    if n >= 4 and (i + j + k) % 3:
+                        continue        # thorough tier: a third of the splits of the length-4 strings
+                    out.append(("s3:%s:%s:%d:%d" % (codec, gen.hexs(x), i, j), seg3(codec, x, i, j, k)))
+        for k, m in enumerate(base_msgs):
+            f = ref_encode(codec, m)
+            two = f + ref_encode(codec, m[:3])
+            for x in (f, two):
+                n = len(x)
+                if n > 14:
+                    cuts = [(i, j) for i in range(0, n + 1) for j in range(i, n + 1) if r0.random() < 60.0 / (n * n)]
+                else:
+                    cuts = [(i, j) for i in range(0, n + 1) for j in range(i, n + 1)]
+                for (i, j) in cuts:
+                    out.append(("s3f:%s:%d:%d:%d" % (codec, k, i, j), seg3(codec, x, i, j, k)))
+                    if (i + j + k) % 3 == 0:
+                        out.append(("s4f:%s:%d:%d:%d" % (codec, k, i, j), seg3(codec, x, i, j, k, empty_at=(i + j) % 4)))
+    # command text over several segments (two bytes of head room in the first segment)
+    for k, m in enumerate([[0x68, 0x69], [0x61], [0x61, 0x62, 0x63, 0x64]]):
+        x = [0xdd, 0xdd] + m + [0] + m[:1] + [0]
+        n = len(x)
+        for i in range(0, n + 1):
+            for j in range(i, n + 1):
+                parts = [x[:i], x[i:j], x[j:]]
+                segs = " ".join(seg((k + 3 * q) % 16, p) for q, p in enumerate(parts))
+                out.append(("s3c:%d:%d:%d" % (k, i, j), ["dec new command " + segs, "dec state 0 2 0 0 -1", "dec run", "dec run", "dec run"]))
     # ---- stream 2: mutated valid frames
     r = gen.rng(id, tier, seed, "frames")
     nb = (120 if tier == "quick" else 2500) * scale
